@@ -46,7 +46,7 @@ TangentClassInvariant ==
          v2 == VScale(Sgn(c) * m, obj.vec)
      IN Prim(x2) = obj.rows[1] /\ PrimPos(VScale(Sgn(x2[1]), v2)) = obj.vec
 CoshInvariant ==
-  obj.cls = "pair" /\ MNorm(obj.rows[1]) < 0 /\ MNorm(obj.rows[2]) < 0 =>
+  obj.cls = "pair" /\ MNorm(obj.rows[1]) < 0 /\ MNorm(obj.rows[2]) < 0 /\ obj.rows[1][1] < 50 =>      \* 32-bit guard
      \A f1, f2 \in 1..Len(Factors) :
         LET x == VScale(Factors[f1][1], obj.rows[1])
             y == VScale(Factors[f2][1], obj.rows[2])
@@ -64,11 +64,11 @@ Obs ==
          [coords |-> [m \in {"klein", "poincare", "hyperboloid", "halfspace"} |-> HC!Coord(obj.rows[1], m)]]
     [] obj.cls = "pair" /\ MNorm(obj.rows[1]) < 0 /\ MNorm(obj.rows[2]) < 0 ->
          [coshsq |-> R(MDot(obj.rows[1], obj.rows[2]) * MDot(obj.rows[1], obj.rows[2]), MNorm(obj.rows[1]) * MNorm(obj.rows[2])),
-          towards |-> Towards(obj.rows[1], obj.rows[2])]
+          towards |-> IF obj.rows[1] = obj.rows[2] THEN <<>> ELSE Towards(obj.rows[1], obj.rows[2])]
     [] obj.cls = "tangent" -> [along |-> Along(obj, 3, 5), back |-> Along(obj, 0 - 3, 5), tanh |-> <<3, 5>>]
     [] OTHER -> [none |-> TRUE]
 
-TowardsIsTangent == obj.cls = "pair" /\ MNorm(obj.rows[1]) < 0 /\ MNorm(obj.rows[2]) < 0 =>
+TowardsIsTangent == obj.cls = "pair" /\ MNorm(obj.rows[1]) < 0 /\ MNorm(obj.rows[2]) < 0 /\ obj.rows[1] # obj.rows[2] =>
                       MDot(obj.rows[1], Towards(obj.rows[1], obj.rows[2])) = 0
 AlongOnGeodesic == obj.cls = "tangent" =>
                      \* 5 * Along = 5 x_hat + 3 v_hat up to scale: Along lies in span(x, v) and at cosh^2 = 25/16
